@@ -148,7 +148,8 @@ class ContractTask(Task):
                 "info": {"target": c.target, "sha": fd.sha if fd else None,
                          "lines": [fd.node.lineno, fd.node.end_lineno] if fd else None,
                          "paths": len(partials), "covered": sorted(covered),
-                         "assumptions": assumptions, "note": c.note, "props": c.props, "replay": c.replay}}
+                         "assumptions": assumptions, "note": c.note, "props": c.props, "replay": c.replay,
+                         "lemma": ({"source": c.source_text, "module": c.source_module} if c.source_text else None)}}
 
 
 class FuncTask(Task):
@@ -248,7 +249,7 @@ def native_replay(prop, obligation, info, o, outdir):
     path = os.path.join(outdir, f"{prop}__{safe}.json")
     rep = {"property": prop, "obligation": obligation, "target": info.get("target"), "kind": o["meta"].get("kind"),
            "clause": o["meta"].get("src"), "exc": o["meta"].get("exc"), "inputs": o.get("cex"),
-           "replay_spec": info.get("replay"), "solver": o.get("backend"), "solver_output": o.get("detail"),
+           "replay_spec": info.get("replay"), "lemma": info.get("lemma"), "solver": o.get("backend"), "solver_output": o.get("detail"),
            "extra": o.get("replay")}
     with open(path, "w") as f:
         json.dump(rep, f, indent=1, default=str)
